@@ -30,9 +30,7 @@ impl W {
     }
     /// core.rs:168-172
     fn max_live_until(&self) -> i128 {
-        let s = self.ledger_seq as i128 + self.max_entry_ttl as i128;
-        let s2 = if s > u32::MAX as i128 { u32::MAX as i128 } else { s };
-        if s2 >= 1 { s2 - 1 } else { 0 }
+        self.ledger_seq as i128 + (if self.max_entry_ttl >= 1 { self.max_entry_ttl as i128 - 1 } else { 0 })
     }
     /// core.rs:183-185
     fn min_live(&self) -> i128 {
@@ -132,13 +130,12 @@ fn ledger_max_live_until_ledger_on_ok_configurations() {
 // max_entry_ttl == 0 and about ledger_seq + max_entry_ttl > u32::MAX (where the host either returns or traps:
 // `sequence_number.checked_add(max_entry_ttl.saturating_sub(1))`, soroban-env-host ledger_info.rs:25-30)
 //
-// KNOWN MISMATCH (test kept, ignored): the model is off by one where `ledger_ok` fails or the sum reaches 2^32.  The host computes
+// (FIXED in the model after this test found it: the model WAS off by one where `ledger_ok` fails or the sum reaches 2^32.)  The host computes
 // seq + (max_entry_ttl saturating- 1) and traps on overflow; the model computes min(seq + max_entry_ttl, u32::MAX) - 1.  Counterexamples:
 //   seq 5, max_entry_ttl 0: host 5, model 4;   seq u32::MAX-3, max_entry_ttl 4: host u32::MAX, model u32::MAX-1;
 //   seq 1, max_entry_ttl u32::MAX: host u32::MAX, model u32::MAX-1.
 // (No real network is configured like this; `ledger_ok` is what the contracts of the units assume.)
 #[test]
-#[ignore = "model/core.rs:168-172 is off by one for max_entry_ttl == 0 and for ledger_seq + max_entry_ttl == 2^32 (see comment)"]
 fn ledger_max_live_until_ledger_on_edge_configurations() {
     let r = Real::new();
     let mut bad = vec![];
